@@ -39,6 +39,12 @@ pub enum Op {
     /// state over: 0 = into_parts + from_parts, 1 = into_map_io(identity), 2 = into_map_codec
     /// (identity), 3 = replace_codec(an equal codec)
     Convert { how: u8 },
+    /// an item the encoder refuses (start_send / write must fail and leave everything accepted
+    /// before untouched); `direct`: through Framed::write instead of the Sink protocol
+    SendRejected { direct: bool },
+    /// the read half is polled to its end (the peer has closed its sending direction); the write
+    /// half goes on as before
+    ReadToEof,
 }
 
 #[derive(Clone, Debug, Serialize, Deserialize, PartialEq)]
@@ -118,6 +124,7 @@ fn check_inner(c: &Case) -> CaseResult {
     let (mut partial, mut straddle, mut ready_at_hw, mut close_seen, mut close_with_data, mut flush_with_data) = (false, false, false, false, false, false);
     let mut saw_err = false;
     let (mut convert_with_data, mut many_writes) = (false, false);
+    let (mut rejected_with_data, mut read_eof_with_data) = (false, false);
 
     macro_rules! invariants {
         ($step:expr, $what:expr) => {{
@@ -179,6 +186,35 @@ fn check_inner(c: &Case) -> CaseResult {
                 let res = Pin::new(&mut framed).write(it);
                 vensure!(res.is_ok(), "C14/start-send-error", "step {}: write failed: {:?}", step, res.err());
                 invariants!(step, "write");
+            }
+            Op::SendRejected { direct } => {
+                let it = item(crate::mockio::REJECTED_LEN as u16, 1);
+                let res = if direct {
+                    Pin::new(&mut framed).write(it)
+                } else {
+                    let r = conv(Sink::<Vec<u8>>::poll_ready(Pin::new(&mut framed), &mut cx));
+                    let _ = framed.io_mut().take_events();
+                    if r != Res::Ok {
+                        invariants!(step, "poll_ready before a refused item");
+                        continue;
+                    }
+                    Sink::<Vec<u8>>::start_send(Pin::new(&mut framed), it)
+                };
+                vensure!(res.is_err(), "C14/refused-item-accepted", "step {}: an item the encoder refuses was accepted", step);
+                rejected_with_data |= buffered_before > 0;
+                invariants!(step, "refused item");
+            }
+            Op::ReadToEof => {
+                use futures_core::Stream;
+                for _ in 0..4 {
+                    match Pin::new(&mut framed).poll_next(&mut cx) {
+                        Poll::Ready(None) => break,
+                        Poll::Ready(Some(_)) | Poll::Pending => {}
+                    }
+                }
+                let _ = framed.io_mut().take_events();
+                read_eof_with_data |= buffered_before > 0;
+                invariants!(step, "read half at end of stream");
             }
             Op::Convert { how } => {
                 convert_with_data |= buffered_before > 0;
@@ -245,6 +281,8 @@ fn check_inner(c: &Case) -> CaseResult {
     obs.label_if(flush_with_data, "flush-with-buffered-data");
     obs.label_if(saw_err, "transport-error");
     obs.label_if(convert_with_data, "conversion-with-buffered-data");
+    obs.label_if(rejected_with_data, "refused-item-with-buffered-data");
+    obs.label_if(read_eof_with_data, "read-eof-with-buffered-data");
     obs.label_if(many_writes, ">16-writes-in-one-call");
     Ok(obs)
 }
@@ -269,6 +307,8 @@ fn op() -> impl Strategy<Value = Op> {
         3 => Just(Op::PollFlush),
         2 => Just(Op::PollClose),
         1 => any::<u8>().prop_map(|how| Op::Convert { how }),
+        1 => any::<bool>().prop_map(|direct| Op::SendRejected { direct }),
+        1 => Just(Op::ReadToEof),
     ]
 }
 
@@ -277,12 +317,12 @@ fn wstep() -> impl Strategy<Value = WStep> {
         6 => prop::sample::select(vec![1u16, 2, 100, 1023, 1024, 1025, 4000, 8191, 8192, 8193, u16::MAX]).prop_map(WStep::Accept),
         2 => Just(WStep::Pending),
         1 => Just(WStep::Zero),
-        1 => (0u8..4).prop_map(WStep::Err),
+        1 => (0u8..6).prop_map(WStep::Err),
     ]
 }
 
 fn fstep() -> impl Strategy<Value = FStep> {
-    prop_oneof![5 => Just(FStep::Ready), 2 => Just(FStep::Pending), 1 => (0u8..4).prop_map(FStep::Err)]
+    prop_oneof![5 => Just(FStep::Ready), 2 => Just(FStep::Pending), 1 => (0u8..6).prop_map(FStep::Err)]
 }
 
 pub fn strategy() -> impl Strategy<Value = Case> {
@@ -310,7 +350,11 @@ pub fn case_from_bytes(data: &[u8]) -> Case {
             4 => Op::PollReady,
             5 | 6 => Op::PollFlush,
             7 => Op::PollClose,
-            _ => Op::Convert { how: s },
+            _ => match s % 4 {
+                0 => Op::SendRejected { direct: s & 4 != 0 },
+                1 => Op::ReadToEof,
+                _ => Op::Convert { how: s },
+            },
         });
     }
     let mut wscript = vec![];
@@ -337,7 +381,7 @@ pub fn case_from_bytes(data: &[u8]) -> Case {
     Case { ops, wscript, fscript: fs, sscript, trickle }
 }
 
-const RULE: &str = "op lists over {Sink send (poll_ready then start_send), direct Framed::write, poll_ready, poll_flush, poll_close, rebuild the Framed through into_parts+from_parts / into_map_io / into_map_codec / replace_codec} with item sizes straddling 1 KiB / 8 KiB, on a scripted AsyncWrite (accept k / Pending / zero / error; flush and shutdown scripts; after the script a peer that takes everything or only 1..500 bytes per write, so that one flush can take far more than 16 writes); after every op: wire is a prefix of the accepted items' reference encoding, buffer-state accessors agree, each result is justified by the transport events of that call, flush/close Ready(Ok) only with nothing buffered (+transport flushed, +shutdown); final drain: wire == sent; non-trivial = an item straddles 1 KiB or 8 KiB, a partial write happened, and a poll_close or a poll_ready at/above the high-water mark occurred";
+const RULE: &str = "op lists over {Sink send (poll_ready then start_send), direct Framed::write, poll_ready, poll_flush, poll_close, rebuild the Framed through into_parts+from_parts / into_map_io / into_map_codec / replace_codec, offer an item the encoder refuses, poll the read half to its end of stream} with item sizes straddling 1 KiB / 8 KiB, on a scripted AsyncWrite (accept k / Pending / zero / error; flush and shutdown scripts; after the script a peer that takes everything or only 1..500 bytes per write, so that one flush can take far more than 16 writes); after every op: wire is a prefix of the accepted items' reference encoding, buffer-state accessors agree, each result is justified by the transport events of that call, flush/close Ready(Ok) only with nothing buffered (+transport flushed, +shutdown); final drain: wire == sent; non-trivial = an item straddles 1 KiB or 8 KiB, a partial write happened, and a poll_close or a poll_ready at/above the high-water mark occurred";
 
 pub fn run(ctx: &Ctx) {
     ctx.assume("the reference encoding (u16 BE length + payload) is computed by the harness; the transport mock records what it accepted");
@@ -350,6 +394,8 @@ pub fn run(ctx: &Ctx) {
             ("close-with-buffered-data", 0.15),
             ("transport-error", 0.1),
             ("conversion-with-buffered-data", 0.1),
+            ("refused-item-with-buffered-data", 0.05),
+            ("read-eof-with-buffered-data", 0.05),
             (">16-writes-in-one-call", 0.02),
         ]),
         strategy,
